@@ -564,6 +564,9 @@ class Gen:
             return host("use", "unit", self.tag(), [e])
         if f in ("copymut", "observe"):
             cands = [(n, t) for (n, t) in self.all_vars() if isinstance(t, list)]
+            if self.in_for > 0 and f == "copymut":
+                # no pushes inside a for loop (the loop might iterate over that very list and never end)
+                cands = [(n, t) for (n, t) in cands if t[0] != "list"]
             if not cands:
                 return self.stmt_emit(d)
             n, t = r.choice(cands)
